@@ -45,6 +45,10 @@ from loky import ProcessPoolExecutor, get_reusable_executor  # noqa: E402
 from loky.backend import get_context  # noqa: E402
 import loky.process_executor as pe  # noqa: E402
 
+if CONFIG.get("main_level_tracked"):
+    # a tracked operation at module level of the main script: re-executed by loky_init_main workers
+    LV_GLOBAL_LOCK = get_context("loky").Lock()
+
 EXECS = {}  # name -> executor
 MGRS = {}  # name -> manager thread objects seen (no executor reference kept)
 EXINFO = {}  # name -> dict kept after del (pids seen, id)
@@ -327,7 +331,7 @@ def op_new(op, oid, ctx):
 
 def op_get_reusable(op, oid, ctx):
     name = op["ex"]
-    prev = EXECS.get(name)
+    prev = EXECS.get(op.get("prev_ex", name))
     before = ex_snapshot(prev)
     prev_id = id(prev) if prev is not None else None
     prev_pids = sorted(list(prev._processes)) if prev is not None else []
@@ -795,6 +799,24 @@ def op_tracker(op, oid, ctx):
         time.sleep(op.get("settle", 0.1))
     elif what == "mk_sem":
         OBJS[op["obj"]] = get_context("loky").Semaphore(1)
+    elif what == "spawn_probe":
+        # the next tracked operation after a tracker death is a process spawn: the child must
+        # report to the same (relaunched) tracker as the root, and what it registers must outlive it
+        c = get_context(op.get("ctx", "loky"))
+        out_path = os.path.join(CASEDIR, "spawn_probe.%s.json" % oid)
+        res_path = os.path.join(RESDIR, op["name"])
+        p = c.Process(target=lv_tasks.tracker_child, args=(out_path, res_path))
+        p.start()
+        pid_after_spawn = rt._resource_tracker._pid
+        p.join()
+        try:
+            with open(out_path) as f:
+                child = json.load(f)
+        except Exception as e:
+            child = {"error": repr(e)}
+        st, _pp = proc_state(pid_after_spawn) if pid_after_spawn else (None, None)
+        return {"tracker_pid": rt._resource_tracker._pid, "tracker_pid_after_spawn": pid_after_spawn, "tracker_state": st, "child": child,
+                "child_exitcode": p.exitcode, "res": sorted(os.listdir(RESDIR)), "shm": shm_list()}
     pid = rt._resource_tracker._pid
     st, _pp = proc_state(pid) if pid else (None, None)
     return {"tracker_pid": pid, "tracker_state": st, "res": sorted(os.listdir(RESDIR)), "shm": shm_list()}
